@@ -9,7 +9,7 @@ leading control-block parameter) are mapped to classes.  With three members the 
 """
 from collections import Counter
 
-from .ir import Terms, NEG
+from .ir import Terms, NEG, SWAP
 
 GMAP = {'of_gf_mul_table': 'MUL', 'of_gf_2_8_mul_table': 'MUL', 'of_gf_2_4_mul_table': 'MUL',
         'of_rs_inverse': 'INV', 'of_gf_2_8_inv': 'INV', 'of_gf_2_4_inv': 'INV',
@@ -55,36 +55,62 @@ def cname(c):
         .replace('of_galois_field_2_4_', 'GF_').replace('of_galois_field_2_8_', 'GF_')
 
 
-def signature(f, pshift=0):
+def signature(f, pshift=0, prog=None, subst=None, depth=0):
+    """Counter of normalised semantic events of f.  Static helpers of the same unit are expanded in place (their parameters
+    replaced by the argument terms), so that extracting a few lines into a helper -- or inlining one -- is not a difference.
+    Phi nodes are named by their structure (normalised incoming values), not by position."""
     tt = Terms(f)
-    ids = {}
 
-    def norm(t):
+    def norm(t, d=0):
         if not isinstance(t, tuple):
             return t
         k = t[0]
         if k == 'param':
+            if subst is not None:
+                return subst[t[1]] if t[1] < len(subst) else ('param?', t[1])
             return ('param', t[1] - pshift)
         if k == 'field':
-            return ('field', norm(t[1]), t[2])
+            return ('field', norm(t[1], d), t[2])
         if k == 'trunc':
-            return norm(t[2])
+            return norm(t[2], d)
         if k in ('global', 'goff'):
             g = t[1]
             if g.startswith('.str') or g.startswith('__FUNCTION__'):
                 return ('str',)
             return ('global', GMAP.get(g, g))
         if k == 'phi':
-            return ('phi', ids.setdefault(t[1], len(ids)))
+            # a phi is named by the leaves of its phi web (the non-phi values that can flow into it, phis inside them
+            # abstracted): joins added or removed by restructuring the control flow do not change the name
+            if d > 0:
+                return ('phi*',)
+            seen = set()
+            work = [t[1]]
+            leaves = set()
+            while work:
+                pid = work.pop()
+                if pid in seen:
+                    continue
+                seen.add(pid)
+                for x in f.insts[pid].ops:
+                    tx = tt.term(x)
+                    if tx[0] == 'phi':
+                        work.append(tx[1])
+                    else:
+                        leaves.add(repr(norm(tx, d + 1)))
+            return ('phi', tuple(sorted(leaves)))
         if k == 'call':
             return ('call', cname(t[1]))
         if k == 'cmp':
-            a, b = norm(t[2]), norm(t[3])
+            a, b = norm(t[2], d), norm(t[3], d)
             p = t[1]
+            # operand order and polarity are spelling: (a > b), (b < a), !(a <= b) are one test
+            if repr(a) > repr(b):
+                a, b = b, a
+                p = SWAP.get(p, p)
             return ('cmp', min(p, NEG.get(p, p)), a, b)
         if k in ('icall', 'alloca', 'op', 'load@'):
-            return (k,) + tuple(norm(x) for x in t[1:] if isinstance(x, tuple))
-        return tuple(norm(x) if isinstance(x, tuple) else x for x in t)
+            return (k,) + tuple(norm(x, d) for x in t[1:] if isinstance(x, tuple))
+        return tuple(norm(x, d) if isinstance(x, tuple) else x for x in t)
     toks = Counter()
     where = {}
     for b in f.blocks:
@@ -95,6 +121,17 @@ def signature(f, pshift=0):
             elif i.op == 'call':
                 c = cname(i.callee)
                 if c in PRINTS:
+                    continue
+                g = prog.callee_fn(i) if prog is not None and i.callee else None
+                if g is not None and g.internal and g.unit is f.unit and depth < 2 and i.callee not in SIBLING_NAMES and \
+                        i.callee not in CMAP:
+                    # a static helper of this unit: its events happen here
+                    sub, w2 = signature(g, 0, prog, [norm(tt.term(a)) for a in i.args], depth + 1)
+                    for t2, n2 in sub.items():
+                        if t2[0] == 'ret':
+                            continue
+                        toks[t2] += n2
+                        where.setdefault(t2, i)
                     continue
                 args = tuple(norm(tt.term(a)) for a in i.args)
                 if c == 'ALLOC':
@@ -112,6 +149,9 @@ def signature(f, pshift=0):
     return toks, where
 
 
+SIBLING_NAMES = set(m[0] for g in GROUPS for m in g[1])
+
+
 def r_siblings(ctx, prog, scopes):
     R = 'R-SIBLINGS'
     ctx.rule(R, 'near-clone implementations (three copies of the GF algebra, two Reed-Solomon API layers, two linear-binary API layers) '
@@ -124,7 +164,7 @@ def r_siblings(ctx, prog, scopes):
         for name, unit, shift in members:
             f = prog.fn(name, unit)
             ctx.need(f is not None, R, 'sibling %s of group %s not found' % (name, gname))
-            s, w = signature(f, shift)
+            s, w = signature(f, shift, prog)
             sigs.append((name, f, s, w))
         n += 1
         ref = None
